@@ -270,6 +270,7 @@ func Props() []*harness.Prop {
 		{ID: "C08", Gen: c08Gen, Exec: c08Exec},
 		{ID: "C09", Gen: c09Gen, Exec: c09Exec},
 		{ID: "C16", Gen: c16Gen, Exec: c16Exec},
+		{ID: "C17", Gen: c17Gen, Exec: c17Exec},
 		{ID: "C20", Gen: c20Gen, Exec: c20Exec},
 		{ID: "C21", Gen: c21Gen, Exec: c21Exec},
 		{ID: "C10", Gen: c10Gen, Exec: c10Exec},
